@@ -2,11 +2,7 @@
 
 import ast
 
-from ..astutil import attr_chain, dotted, norm, walk_shallow
-from ..cfg import live_nodes, node_calls
-from ..flow import explore
-from ..loader import AnalysisError
-from .common import REAL, cfg_of, nodes_calling, own_method, str_const
+from .common import REAL
 
 EXPLANATION = (
     "Rules on testtools.testresult.real.StreamResultRouter and StreamToQueue.route_code: "
@@ -27,136 +23,190 @@ EXPLANATION = (
 R = "StreamResultRouter"
 
 
-def _cond_names(test):
-    """Names / dotted attrs that must be truthy for ``test`` to be true."""
-    if isinstance(test, ast.BoolOp) and isinstance(test.op, ast.And):
-        out = set()
-        for v in test.values:
-            out |= _cond_names(v)
-        return out
-    d = dotted(test)
-    return {d} if d else set()
+from . import streamobjects as so   # noqa: E402
+from ..absint import FALSE, NONE, TRUE   # noqa: E402
+
+SINKS = ("fallback", "sink0", "sink1", "sink2", "queue")
+EVENT = [("test_id", ("const", "pkg.T")), ("test_status", ("const", "success")), ("test_tags", ("sym", "tags")), ("runnable", FALSE), ("file_name", ("const", "f")),
+         ("file_bytes", ("const", b"b")), ("eof", FALSE), ("mime_type", ("const", "text/plain")), ("timestamp", ("sym", "t1"))]
 
 
-def check_router_status(ctx, status):
-    from .. import effects
-    classes = ctx.classes
-    router = classes.get(REAL, R)
+def _event(route=None, **over):
+    kw = [(k, over.get(k, v)) for k, v in EVENT]
+    if route is not None:
+        kw.append(("route_code", route))
+    return kw
+
+
+def _router(ctx, fallback=True, start_stop_fallback=True):
+    cls = ctx.classes.get(REAL, R)
+    dom = so.StreamDomain(ctx.classes, accepting=SINKS)
+    d = so.Driver(ctx, cls, dom)
+    ctor = ([("wobj", "fallback")] if fallback else []) + ([] if start_stop_fallback else [FALSE] if fallback else [])
+    return d, d.construct(ctor if fallback else [], [] if fallback or start_stop_fallback else [("do_start_stop_run", FALSE)])
+
+
+def _sent(r):
+    return [(n.split(".")[0], n.split(".")[1], dict(kw), pos) for n, pos, kw, tag in r.state.get("ev.calls", ()) if n.split(".")[0] in SINKS]
+
+
+def check_routing(ctx):
+    cls = ctx.classes.get(REAL, R)
     Q = f"{REAL}:{R}"
-    kwname = status.args.kwarg.arg
-    n = 0
-    for consume in (True, False):
-        # (codes whose next segment repeats the consumed one -- nested workers numbered alike -- included)
-        for rc in ("<absent>", None, "a", "a/b", "a/b/c", "a/a", "a/a/b", "a/aa/a", "z", "z/a", "ab", "ab/c"):
-            for tid in ("<absent>", "T1", "T9"):
-                items = []
-                if tid != "<absent>":
-                    items.append(("test_id", ("const", tid)))
-                if rc != "<absent>":
-                    items.append(("route_code", "None" if rc is None else ("const", rc)))
-                items.append(("file_name", ("arg", "other-field")))
-                dom = effects.EffectDomain(classes, attrs={
-                    "self._route_code_prefixes": ("table", (("a", ("tuple", ("wobj", "prefix-sink"), "True" if consume else "False")),)),
-                    "self._test_ids": ("table", (("T1", ("wobj", "id-sink")),)), "self.fallback": ("wobj", "fallback")})
-                res = effects.run(ctx, dom, status, router, {kwname: ("kwdict", tuple(items))})
-                first = rc.split("/")[0] if isinstance(rc, str) and rc != "<absent>" else None
-                want_kw = dict(items)
-                if first == "a":
-                    want_t = "prefix-sink"
-                    if consume:
-                        rest = rc[2:] if len(rc) > 1 else ""
-                        want_kw["route_code"] = ("const", rest) if rest else "None"
-                elif tid == "T1":
-                    want_t = "id-sink"
-                else:
-                    want_t = "fallback"
-                problems = set()
-                if not res:
-                    problems.add("no path")
-                for r in res:
-                    if r.kind != "val":
-                        problems.add(f"raises {r.value!r}")
-                        continue
-                    sent = [e for e in effects.calls(r) if e[0].endswith(".status")]
-                    if len(sent) != 1:
-                        problems.add(f"the event is forwarded {len(sent)} times")
-                        continue
-                    tgt, pos, kw, _ = sent[0]
-                    if tgt != want_t + ".status":
-                        problems.add(f"goes to {tgt[:-7]} (documented: {want_t}; precedence route-prefix rule > test-id rule > fallback)")
-                    if pos or dict(kw) != want_kw:
-                        diff = {k: (dict(kw).get(k), want_kw.get(k)) for k in set(dict(kw)) | set(want_kw) if dict(kw).get(k) != want_kw.get(k)}
-                        problems.add(f"forwarded fields differ: {diff} (got, expected)")
-                n += 1
-                label = f"route_code={rc!r} test_id={tid!r} consuming={consume}"
-                rule = "R-ONE-DESTINATION" if not any("fields differ" in p_ for p_ in problems) else ("R-SEPARATOR-AGREES" if "route_code" in str(problems) else "R-ONLY-OWNED-KEY")
-                ctx.check(rule, f"{R}.status: {label} -> {want_t}", status, not problems, "; ".join(sorted(problems)), construct=f"{Q}.status::{label}")
-    # no rule matches and there is no fallback: the event cannot be dropped silently
-    dom = effects.EffectDomain(classes, attrs={"self._route_code_prefixes": ("table", ()), "self._test_ids": ("table", ()), "self.fallback": "None"})
-    res = effects.run(ctx, dom, status, router, {kwname: ("kwdict", (("test_id", ("const", "T9")),))})
-    ctx.check("R-ONE-DESTINATION", f"{R}.status: no matching rule and no fallback raises", status, bool(res) and all(r.kind == "exc" for r in res),
-              "an event that matches no rule is dropped silently when the router has no fallback", construct=f"{Q}.status::no-destination")
-    return n
-
-
-def check_router_sinks(ctx):
-    """startTestRun / stopTestRun reach exactly the sinks registered for them, once per run; a rule added while a run is
-    in progress is started at once iff it is registered -- decided on call sequences with the router's state carried along."""
-    from .. import effects
-    from ..absint import State
-    classes = ctx.classes
-    router = classes.get(REAL, R)
-    Q = f"{REAL}:{R}"
-    pol = {"route_code_prefix": own_method(ctx, REAL, R, "_map_route_code_prefix"), "test_id": own_method(ctx, REAL, R, "_map_test_id")}
-
-    def step(states, meth, argv):
-        f = own_method(ctx, REAL, R, meth)
-        out = []
-        for st in states:
-            dom = effects.EffectDomain(classes, attrs={"self": ("self",), "self.fallback": ("wobj", "fallback")},
-                                       results={"StreamResultRouter._policies.get": [("func", pol["route_code_prefix"])], "self._policies.get": [("func", pol["route_code_prefix"])]})
-            for r in effects.run(ctx, dom, f, router, argv, state=st, depth=6):
-                if r.kind == "val":
-                    out.append(State([(k, v) for k, v in r.state.items if k.startswith("self.") or k == "ev.calls"]))
-                else:
-                    out.append(State([("ev.failed", f"{meth} raises {r.value!r}")]))
-        return list(dict.fromkeys(out))
-
-    def log(st):
-        return [e[0] for e in st.get("ev.calls", ()) if e[0].split(".")[-1] in ("startTestRun", "stopTestRun")]
-
-    ADD = lambda sink, flag: {"sink": ("wobj", sink), "policy": ("const", "route_code_prefix"), "do_start_stop_run": "True" if flag else "False",
-                              "policy_args": ("kwdict", (("route_prefix", ("const", sink)),))}
-    start = [State([("self._sinks", ("tuple",)), ("self._in_run", "False"), ("ev.calls", ())])]
-    scenarios = [
-        ("rule registered before the run", [("add_rule", ADD("s1", True)), ("startTestRun", {}), ("stopTestRun", {})], ["s1.startTestRun", "s1.stopTestRun"]),
-        ("rule without do_start_stop_run", [("add_rule", ADD("s1", False)), ("startTestRun", {}), ("stopTestRun", {})], []),
-        ("registered rule added mid-run", [("startTestRun", {}), ("add_rule", ADD("s1", True)), ("stopTestRun", {})], ["s1.startTestRun", "s1.stopTestRun"]),
-        ("unregistered rule added mid-run", [("startTestRun", {}), ("add_rule", ADD("s1", False)), ("stopTestRun", {})], []),
-        ("rule added mid-run, then a second run", [("startTestRun", {}), ("add_rule", ADD("s1", True)), ("stopTestRun", {}), ("startTestRun", {}), ("stopTestRun", {})],
-         ["s1.startTestRun", "s1.stopTestRun", "s1.startTestRun", "s1.stopTestRun"]),
-        ("registered rule added after a finished run is not started at once", [("startTestRun", {}), ("stopTestRun", {}), ("add_rule", ADD("s1", True))], []),
-        ("two registered sinks, two runs", [("add_rule", ADD("s1", True)), ("add_rule", ADD("s2", True)), ("startTestRun", {}), ("stopTestRun", {}), ("startTestRun", {}), ("stopTestRun", {})],
-         ["s1.startTestRun", "s2.startTestRun", "s1.stopTestRun", "s2.stopTestRun"] * 2),
+    base = dict(EVENT)
+    cases = [
+        # (what, rules to add, route code of the event, test id, expected sink, expected route code at the sink)
+        ("an event whose first route segment has a consuming rule goes there, without that segment", [("prefix", "sink0", "0", True)], ("const", "0/1/2"), None, "sink0", ("const", "1/2")),
+        ("a consuming rule turns a bare prefix into no route code at all", [("prefix", "sink0", "0", True)], ("const", "0"), None, "sink0", NONE),
+        ("a non-consuming rule leaves the route code alone", [("prefix", "sink0", "0", False)], ("const", "0/1"), None, "sink0", ("const", "0/1")),
+        ("only the first segment selects: a longer prefix-looking code does not match", [("prefix", "sink0", "0", True)], ("const", "00/1"), None, "fallback", ("const", "00/1")),
+        ("a test-id rule catches events without a matching route rule", [("prefix", "sink0", "0", True), ("id", "sink1", "pkg.T")], ("const", "5/1"), None, "sink1", ("const", "5/1")),
+        ("the route rule wins over the test-id rule", [("prefix", "sink0", "0", True), ("id", "sink1", "pkg.T")], ("const", "0/1"), None, "sink0", ("const", "1")),
+        ("an event without route code can still match a test-id rule", [("prefix", "sink0", "0", True), ("id", "sink1", "pkg.T")], None, None, "sink1", "absent"),
+        ("everything else goes to the fallback", [("prefix", "sink0", "0", True), ("id", "sink1", "pkg.other")], ("const", "7"), None, "fallback", ("const", "7")),
     ]
-    for name, seq, want in scenarios:
-        states = start
-        for meth, argv in seq:
-            states = step(states, meth, argv)
-        problems = set()
-        for st in states:
-            if st.get("ev.failed", None):
-                problems.add(st.get("ev.failed"))
-            elif log(st) != want:
-                problems.add(f"sinks see {log(st)}; expected {want}")
-        ctx.check("R-SINK-PAIR", f"{R}: {name}", router.node, bool(states) and not problems, "; ".join(sorted(problems)), construct=f"{Q}::sinks {name}")
-    init = own_method(ctx, REAL, R, "__init__")
-    for flag, want in ((True, ("tuple", ("wobj", "fallback"))), (False, ("tuple",))):
-        dom = effects.EffectDomain(classes, attrs={"self": ("self",)})
-        res = effects.run(ctx, dom, init, router, {"fallback": ("wobj", "fallback"), "do_start_stop_run": "True" if flag else "False"})
-        got = {r.state.get("self._sinks", None) for r in res if r.kind == "val"}
-        ctx.check("R-SINK-PAIR", f"{R}.__init__: fallback registered for start/stop iff do_start_stop_run ({flag})", init, got == {want},
-                  f"with do_start_stop_run={flag} the start/stop list starts as {sorted(map(repr, got))}", construct=f"{Q}.__init__::fallback {flag}")
+    for what, rules, route, _tid, want_sink, want_route in cases:
+        d, runs = _router(ctx)
+        for kind, sink, arg, consume in [tuple(x) + (None,) * (4 - len(x)) for x in rules]:
+            if kind == "prefix":
+                runs = d.call(runs, "add_rule", [("wobj", sink), ("const", "route_code_prefix")], [("route_prefix", ("const", arg)), ("consume_route", TRUE if consume else FALSE)])
+            else:
+                runs = d.call(runs, "add_rule", [("wobj", sink), ("const", "test_id")], [("test_id", ("const", arg))])
+        runs = d.call(runs, "startTestRun")
+        runs = d.call(runs, "status", kw=_event(route))
+        d.done()
+        one, owned = set(), set()
+        for r in runs:
+            if r.kind == "exc":
+                one.add(f"status raises {r.value!r}")
+                continue
+            got = [(snk, kw) for snk, meth, kw, pos in _sent(r) if meth == "status"]
+            if [snk for snk, _ in got] != [want_sink]:
+                one.add(f"the event reaches {[snk for snk, _ in got]}; expected exactly [{want_sink!r}]")
+                continue
+            kw = got[0][1]
+            rc = kw.get("route_code", "absent")
+            if rc != want_route and not (want_route == "absent" and rc == NONE) and not (want_route == NONE and rc == "absent"):
+                owned.add(f"the sink sees route_code={rc!r}; expected {want_route!r}")
+            for k, v in base.items():
+                if kw.get(k, "absent") != v:
+                    owned.add(f"the field {k} arrives as {kw.get(k, 'absent')!r} instead of {v!r}")
+        ctx.check("R-ONE-DESTINATION", what, cls.node, bool(runs) and not one, "; ".join(sorted(one)) or "no path returns", examined=len(runs), construct=f"{Q}.status::{what}")
+        ctx.check("R-ONLY-OWNED-KEY", f"{what}: every other field unchanged", cls.node, bool(runs) and not owned, "; ".join(sorted(owned)), examined=len(runs), construct=f"{Q}.status::fields {what}")
+    # no rule matches and there is no fallback: the event is refused, not dropped
+    d, runs = _router(ctx, fallback=False)
+    runs = d.call(d.call(runs, "startTestRun"), "status", kw=_event(("const", "9")))
+    d.done()
+    ok = bool(runs) and all(r.kind == "exc" for r in runs)
+    ctx.check("R-ONE-DESTINATION", "without any matching rule and without fallback the event raises", cls.node, ok, "an event that has no destination is dropped silently", examined=len(runs),
+              construct=f"{Q}.status::no-destination")
+
+
+def check_separator(ctx):
+    """StreamToQueue(code) prefixes, a consuming router rule for code strips: the original route code comes back."""
+    q = ctx.classes.get(REAL, "StreamToQueue")
+    problems = set()
+    n = 0
+    for original in (None, ("const", "inner"), ("const", "a/b")):
+        dq = so.Driver(ctx, q, so.StreamDomain(ctx.classes, accepting=SINKS))
+        runs = dq.call(dq.construct([("wobj", "queue"), ("const", "code")]), "status", kw=_event(original))
+        dq.done()
+        for r in runs:
+            n += 1
+            if r.kind == "exc":
+                problems.add(f"StreamToQueue.status raises {r.value!r}")
+                continue
+            puts = [pos for snk, meth, kw, pos in _sent(r) if snk == "queue" and meth == "put"]
+            if len(puts) != 1 or not (isinstance(puts[0][0], tuple) and puts[0][0][:1] == ("kwdict",)):
+                problems.add(f"StreamToQueue does not put exactly one event dict on the queue ({puts!r})")
+                continue
+            ev = dict(puts[0][0][1])
+            want = ("const", "code" if original is None else "code/" + original[1])
+            if ev.get("route_code") != want:
+                problems.add(f"an event with route code {original!r} is queued with route_code={ev.get('route_code')!r}; expected {want!r}")
+                continue
+            d, rruns = _router(ctx)
+            rruns = d.call(rruns, "add_rule", [("wobj", "sink0"), ("const", "route_code_prefix")], [("route_prefix", ("const", "code")), ("consume_route", TRUE)])
+            rruns = d.call(d.call(rruns, "startTestRun"), "status", kw=[(k, v) for k, v in puts[0][0][1] if k != "event"])
+            d.done()
+            for r2 in rruns:
+                got = [kw.get("route_code", NONE) for snk, meth, kw, pos in _sent(r2) if snk == "sink0" and meth == "status"] if r2.kind == "val" else None
+                if got != [original if original is not None else NONE]:
+                    problems.add(f"an event with route code {original!r}, queued under 'code' and routed by a consuming rule for 'code', arrives with route code {got!r}")
+    ctx.check("R-SEPARATOR-AGREES", "StreamToQueue's prefixing and a consuming route rule are inverse", q.node, n > 0 and not problems, "; ".join(sorted(problems)) or "no path returns", examined=n,
+              construct=f"{REAL}:StreamToQueue.route_code::inverse")
+    d, runs = _router(ctx)
+    runs = d.call(runs, "add_rule", [("wobj", "sink0"), ("const", "route_code_prefix")], [("route_prefix", ("const", "a/b"))])
+    d.done()
+    ok = bool(runs) and all(r.kind == "exc" for r in runs)
+    ctx.check("R-SEPARATOR-AGREES", "a route prefix of more than one segment is rejected (it could never match)", ctx.classes.get(REAL, R).node, ok, "a multi-segment prefix is accepted",
+              examined=len(runs), construct=f"{REAL}:{R}._map_route_code_prefix::one-step")
+
+
+def check_sinks(ctx):
+    cls = ctx.classes.get(REAL, R)
+    Q = f"{REAL}:{R}"
+    problems = set()
+    n = 0
+    # registered before the run: started and stopped with it, once each; unregistered sinks never
+    d, runs = _router(ctx)
+    runs = d.call(runs, "add_rule", [("wobj", "sink0"), ("const", "route_code_prefix")], [("route_prefix", ("const", "0")), ("do_start_stop_run", TRUE)])
+    runs = d.call(runs, "add_rule", [("wobj", "sink1"), ("const", "route_code_prefix")], [("route_prefix", ("const", "1"))])
+    runs = d.call(runs, "startTestRun")
+    runs = d.call(runs, "add_rule", [("wobj", "sink2"), ("const", "test_id")], [("test_id", ("const", "pkg.T")), ("do_start_stop_run", TRUE)])
+    mid = [[(snk, meth) for snk, meth, kw, pos in _sent(r)] for r in runs if r.kind == "val"]
+    runs = d.call(runs, "stopTestRun")
+    d.done()
+    for r, before in zip([r for r in runs if r.kind == "val"], mid):
+        n += 1
+        calls_ = [(snk, meth) for snk, meth, kw, pos in _sent(r)]
+        if sorted(before) != sorted([("fallback", "startTestRun"), ("sink0", "startTestRun"), ("sink2", "startTestRun")]):
+            problems.add(f"after startTestRun and a rule added mid-run the sinks started are {before}; expected the fallback, the sink registered with do_start_stop_run, and at once the one added mid-run")
+        stops = [c_ for c_ in calls_ if c_[1] == "stopTestRun"]
+        if sorted(stops) != sorted([("fallback", "stopTestRun"), ("sink0", "stopTestRun"), ("sink2", "stopTestRun")]):
+            problems.add(f"stopTestRun reaches {stops}; expected exactly the sinks that were started, once each")
+    if any(r.kind == "exc" for r in runs):
+        problems.add("registering sinks / starting / stopping raises")
+    ctx.check("R-SINK-PAIR", "startTestRun / stopTestRun reach exactly the sinks registered for them, once per run; a rule added mid-run is started at once", cls.node, n > 0 and not problems,
+              "; ".join(sorted(problems)) or "no path returns", examined=n, construct=f"{Q}::sink-pair")
+    # a rule added before the run is not started early; do_start_stop_run=False on the fallback keeps it out
+    d, runs = _router(ctx)
+    runs = d.call(runs, "add_rule", [("wobj", "sink0"), ("const", "test_id")], [("test_id", ("const", "pkg.T")), ("do_start_stop_run", TRUE)])
+    d.done()
+    early = [c_ for r in runs if r.kind == "val" for c_ in _sent(r)]
+    ctx.check("R-SINK-PAIR", "a rule added while no run is in progress does not start its sink", cls.node, bool(runs) and not early, f"add_rule outside a run already calls {[(c_[0], c_[1]) for c_ in early]}",
+              examined=len(runs), construct=f"{Q}.add_rule::not-in-run")
+    # mid-run, without do_start_stop_run: routed to, but not started; after the run has stopped: not started either
+    d, runs = _router(ctx)
+    runs = d.call(runs, "startTestRun")
+    runs = d.call(runs, "add_rule", [("wobj", "sink1"), ("const", "test_id")], [("test_id", ("const", "pkg.T"))])
+    runs = d.call(runs, "stopTestRun")
+    runs = d.call(runs, "add_rule", [("wobj", "sink2"), ("const", "test_id")], [("test_id", ("const", "pkg.U")), ("do_start_stop_run", TRUE)])
+    d.done()
+    wrong = sorted({(c_[0], c_[1]) for r in runs if r.kind == "val" for c_ in _sent(r) if c_[0] in ("sink1", "sink2")})
+    ctx.check("R-SINK-PAIR", "a sink added mid-run without do_start_stop_run, or added after the run has stopped, is not started", cls.node, bool(runs) and not wrong and all(r.kind == "val" for r in runs),
+              f"sinks that must be left alone receive {wrong}", examined=len(runs), construct=f"{Q}.add_rule::guards")
+    d = so.Driver(ctx, cls, so.StreamDomain(ctx.classes, accepting=SINKS))
+    runs = d.call(d.call(d.construct([("wobj", "fallback")], [("do_start_stop_run", FALSE)]), "startTestRun"), "stopTestRun")
+    d.done()
+    touched = [c_ for r in runs if r.kind == "val" for c_ in _sent(r)]
+    ctx.check("R-SINK-PAIR", "a fallback given with do_start_stop_run=False is neither started nor stopped", cls.node, bool(runs) and not touched, f"the fallback receives {[(c_[0], c_[1]) for c_ in touched]}",
+              examined=len(runs), construct=f"{Q}.__init__::fallback-flag")
+    # unknown policy: refused before anything is registered or started
+    d, runs = _router(ctx)
+    runs = d.call(runs, "startTestRun")
+    before = [len(_sent(r)) for r in runs if r.kind == "val"]
+    bad = d.call(runs, "add_rule", [("wobj", "sink0"), ("const", "no-such-policy")], [("do_start_stop_run", TRUE)])
+    d.done()
+    ok = bool(bad) and all(r.kind == "exc" and r.value == ("exc", "ValueError") for r in bad) and all(len(_sent(r)) == b_ for r, b_ in zip(bad, before))
+    ctx.check("R-POLICY-TABLE", "an unknown policy raises ValueError before the sink is registered or started", cls.node, ok, "an unknown policy is not refused cleanly", examined=len(bad),
+              construct=f"{Q}.add_rule::unknown-policy")
+    d, runs = _router(ctx)
+    runs = d.call(runs, "add_rule", [("wobj", "sink0"), ("const", "route_code_prefix")], [("route_prefix", ("const", "0"))])
+    runs = d.call(runs, "add_rule", [("wobj", "sink1"), ("const", "test_id")], [("test_id", ("const", "x"))])
+    d.done()
+    ctx.check("R-POLICY-TABLE", "the documented policies 'route_code_prefix' and 'test_id' are accepted with their documented arguments", cls.node, bool(runs) and all(r.kind == "val" for r in runs),
+              "a documented policy is refused", examined=len(runs), construct=f"{Q}._policies::documented")
 
 
 def run(ctx):
@@ -165,79 +215,6 @@ def run(ctx):
     ctx.rule("R-ONLY-OWNED-KEY", "the router rewrites only route_code, only for a consuming rule")
     ctx.rule("R-SINK-PAIR", "startTestRun/stopTestRun reach exactly the registered sinks; mid-run add starts only registered sinks")
     ctx.rule("R-POLICY-TABLE", "policy table has the documented entries; unknown policy raises before any state change")
-    Q = f"{REAL}:{R}"
-    status = own_method(ctx, REAL, R, "status")
-    cfg = cfg_of(ctx, status)
-    live = live_nodes(cfg)
-    kw = status.args.kwarg.arg if status.args.kwarg else None
-    if kw is None or status.args.args[1:]:
-        raise AnalysisError("StreamResultRouter.status no longer takes only **kwargs")
-
-    def chk(rule, name, ok, msg, node=None, path=None, fn="status"):
-        ctx.check(rule, f"{R}.{fn}: {name}", node if node is not None else status, bool(ok), msg, path=path,
-                  construct=f"{Q}.{fn}::{name}")
-
-    # ---- destination and route code, on abstract runs over small concrete route codes
-    check_router_status(ctx, status)
-    sep_split = "/"
-    # writer: StreamToQueue puts its own code in front, "/"-separated (decided on runs with concrete codes)
-    from .. import effects
-    rcm = own_method(ctx, REAL, "StreamToQueue", "route_code")
-    sq_cls = ctx.classes.get(REAL, "StreamToQueue")
-    outs = {}
-    for rc, label in ((("const", "x/y"), "given"), ("None", "none")):
-        dom_ = effects.EffectDomain(ctx.classes, attrs={"self.routing_code": ("const", "own")})
-        outs[label] = {(r.kind, r.value) for r in effects.run(ctx, dom_, rcm, sq_cls, {rcm.args.args[1].arg: rc})}
-    ctx.check("R-SEPARATOR-AGREES", "StreamToQueue.route_code: None -> own code", rcm, outs["none"] == {("val", ("const", "own"))},
-              f"an event without route code gets {sorted(map(repr, outs['none']))}, not exactly the queue's own code", construct=f"{REAL}:StreamToQueue.route_code::none-arm")
-    ctx.check("R-SEPARATOR-AGREES", "StreamToQueue.route_code: own + SEP + incoming", rcm, outs["given"] == {("val", ("const", "own/x/y"))},
-              f"route code 'x/y' through a queue with code 'own' becomes {sorted(map(repr, outs['given']))}, not 'own/x/y'", construct=f"{REAL}:StreamToQueue.route_code::concat")
-    sep_write = "/" if outs["given"] == {("val", ("const", "own/x/y"))} else None
-    from .c11 import check_queue_semantics
-    sq_status = own_method(ctx, REAL, "StreamToQueue", "status")
-    check_queue_semantics(ctx, [a.arg for a in sq_status.args.args[1:]], rule="R-SEPARATOR-AGREES")
-    mp = own_method(ctx, REAL, R, "_map_route_code_prefix")
-    sep_reject = None
-    for n in walk_shallow(mp, include_self=False):
-        if isinstance(n, ast.If) and isinstance(n.test, ast.Compare) and isinstance(n.test.ops[0], ast.In) and str_const(n.test.left) is not None:
-            if any(isinstance(x, ast.Raise) for x in n.body) and dotted(n.test.comparators[0]) == mp.args.args[2].arg:
-                sep_reject = n.test.left.value
-    ctx.check("R-SEPARATOR-AGREES", "a prefix containing the separator is rejected", mp, sep_reject is not None,
-              "_map_route_code_prefix accepts prefixes that span more than one route step", construct=f"{Q}._map_route_code_prefix::reject")
-    ctx.check("R-SEPARATOR-AGREES", f"{R}.status: separator literals agree", mp, sep_reject == "/" and sep_write == "/",
-              f"the separator rejected in prefixes is {sep_reject!r}, the one StreamToQueue writes {sep_write!r} (the router splits on '/': see the status scenarios)",
-              construct=f"{Q}.status::separator literals agree")
-    # ---- sink pairing
-    check_router_sinks(ctx)
-    # ---- policy table
-    cls = ctx.classes.get(REAL, R)
-    table = {}
-    for stmt in cls.node.body:
-        if isinstance(stmt, ast.Assign) and isinstance(stmt.targets[0], ast.Subscript) and dotted(stmt.targets[0].value) == "_policies":
-            table[str_const(stmt.targets[0].slice)] = dotted(stmt.value)
-    if isinstance(cls.attrs.get("_policies"), ast.Dict):
-        for k, v in zip(cls.attrs["_policies"].keys, cls.attrs["_policies"].values):
-            table[str_const(k)] = dotted(v)
-    doc = {"route_code_prefix": ["sink", "route_prefix", "consume_route"], "test_id": ["sink", "test_id"]}
-    ctx.check("R-POLICY-TABLE", "policies are exactly route_code_prefix and test_id", cls.node, set(table) == set(doc),
-              f"policy table keys are {sorted(table)}", construct=f"{Q}::_policies")
-    for pol, params in doc.items():
-        mname = table.get(pol)
-        f = cls.own_method(mname) if mname else None
-        ok = f is not None and [a.arg for a in f.args.args[1:]] == params
-        ctx.check("R-POLICY-TABLE", f"policy {pol} takes ({', '.join(params)})", f if f is not None else cls.node, ok,
-                  f"policy {pol} is bound to {mname} with parameters {[a.arg for a in f.args.args[1:]] if f else None}", construct=f"{Q}::policy {pol}")
-    # unknown policy: ValueError, nothing registered, no sink touched (abstract run)
-    from .. import effects
-    add_rule = own_method(ctx, REAL, R, "add_rule")
-    dom_ = effects.EffectDomain(ctx.classes, attrs={"self": ("self",), "self._in_run": "True"}, results={"StreamResultRouter._policies.get": ["None"], "self._policies.get": ["None"]})
-    from ..absint import State as _State
-    res_ = effects.run(ctx, dom_, add_rule, cls, {"sink": ("wobj", "s1"), "policy": ("const", "no-such-policy"), "do_start_stop_run": "True", "policy_args": ("kwdict", ())},
-                       state=_State([("self._sinks", ("tuple",))]))
-    ok = bool(res_) and all(r.kind == "exc" and r.value == ("exc", "ValueError") and r.state.get("self._sinks") == ("tuple",) and not effects.calls(r) for r in res_)
-    chk("R-POLICY-TABLE", "unknown policy raises ValueError before any state change", ok,
-        "an unknown policy does not end in ValueError with the router untouched: " + "; ".join(sorted({f"{r.kind} {r.value!r}, sinks {r.state.get('self._sinks')!r}, calls {[e[0] for e in effects.calls(r)]}" for r in res_})),
-        fn="add_rule", node=add_rule)
-    ctx.floor("R-ONE-DESTINATION", 40, "status scenarios")
-    ctx.floor("R-SEPARATOR-AGREES", 4)
-    ctx.floor("R-SINK-PAIR", 8)
+    check_routing(ctx)
+    check_separator(ctx)
+    check_sinks(ctx)
